@@ -496,22 +496,80 @@ func ruleSectPrLast(r *Run) {
 			ok, why = false, "the section properties can be encoded after the end token"
 		}
 	}
-	// the list of other elements is built by in-order appends from one range over b.Elements
-	appendOK := false
+	// the list of other elements is built by in-order appends from one range over b.Elements:
+	// inside that loop the element is tested for being the section properties; on the "is not"
+	// side every path to the next iteration appends the element, on the "is" side none does.
+	collectOK, collectWhy := false, "no range loop that separates *SectionProperties from the other elements was found"
 	allInstrs(fn, func(in ssa.Instruction) {
-		c, ok := in.(*ssa.Call)
-		if !ok {
+		ta, isTA := in.(*ssa.TypeAssert)
+		if !isTA || !ta.CommaOk || !typeIs(ta.AssertedType, pkgDoc, "SectionProperties") {
 			return
 		}
-		if b, ok := c.Call.Value.(*ssa.Builtin); ok && b.Name() == "append" {
-			if l := inLoop(c.Block()); l != nil && isBoundedRange(l) {
-				// first argument is the accumulated local (phi or load of alloc)
-				appendOK = true
+		l := inLoop(ta.Block())
+		if l == nil || !isBoundedRange(l) {
+			collectWhy = "the section properties are separated outside a plain range loop over the elements"
+			return
+		}
+		// the branch on the assertion's ok result
+		var iff *ssa.If
+		if refs := ta.Referrers(); refs != nil {
+			for _, u := range *refs {
+				if ex, ok := u.(*ssa.Extract); ok && ex.Index == 1 && ex.Referrers() != nil {
+					for _, u2 := range *ex.Referrers() {
+						if x, ok := u2.(*ssa.If); ok {
+							iff = x
+						}
+					}
+				}
 			}
 		}
+		if iff == nil {
+			collectWhy = "the result of the *SectionProperties test does not steer a branch"
+			return
+		}
+		isSect, isOther := iff.Block().Succs[0], iff.Block().Succs[1]
+		// blocks that append the loop's element to a slice
+		appendBlocks := map[*ssa.BasicBlock]bool{}
+		for b := range l.Body {
+			for _, in2 := range b.Instrs {
+				c, ok := in2.(*ssa.Call)
+				if !ok {
+					continue
+				}
+				if bi, ok := c.Call.Value.(*ssa.Builtin); !ok || bi.Name() != "append" || len(c.Call.Args) < 2 {
+					continue
+				}
+				for _, e := range varargElems(c.Call.Args[1]) {
+					if e == ta.X {
+						appendBlocks[b] = true
+					}
+				}
+			}
+		}
+		if len(appendBlocks) == 0 {
+			collectWhy = "no append of the loop element was found"
+			return
+		}
+		cut := map[*ssa.BasicBlock]bool{}
+		for b := range appendBlocks {
+			cut[b] = true
+		}
+		// (a) not-a-section side: the header must not be reachable without passing an append
+		if !appendBlocks[isOther] && reachableBlocks(isOther, cut)[l.Header] {
+			collectOK, collectWhy = false, "some element that is not the section properties can reach the next iteration without being collected (it is dropped from the saved body)"
+			return
+		}
+		// (b) section side: no append before the next iteration
+		for b := range reachableBlocks(isSect, map[*ssa.BasicBlock]bool{l.Header: true}) {
+			if appendBlocks[b] {
+				collectOK, collectWhy = false, "the section properties are also collected with the other elements (they would be written in place and again at the end)"
+				return
+			}
+		}
+		collectOK = true
 	})
-	if ok && !appendOK {
-		ok, why = false, "the non-section elements are not collected by in-order append in a range over Body.Elements"
+	if ok && !collectOK {
+		ok, why = false, collectWhy
 	}
 	r.Check("sectpr-last", "(*Body).MarshalXML", fn.Pos(), ok,
 		"Body.MarshalXML must encode the non-section elements in list order and the section properties exactly once, last: "+map[bool]string{true: "shape confirmed", false: why}[ok])
